@@ -377,3 +377,33 @@ Example C10_ex_layered :
    | Some (s, r) => sget xh_eqb lex_low1 s = None
    | None => False end).
 Proof. vm_compute. repeat split; reflexivity. Qed.
+
+(* ---- stepping stones towards multi-key completeness (which stays partial, see docs/C10.md) ---- *)
+From LE Require Import SMT.NodeDistinct SMT.ProveFacts.
+(* Distinct nodes have distinct hashes: in a well-formed trie, under the injective and domain-separated hash, two non-empty
+   sub-tries at paths p and p' with the same hash sit at the same path.  (trie.Prove drops a sibling hash iff it EQUALS an
+   ancestor hash or an already emitted hash; by this theorem "equal hash" means "same node".) *)
+Theorem C10_node_hash_distinct :
+  forall (V Hsh : Type) (hempty : Hsh) (hleaf : key -> V -> Hsh) (hbranch : Hsh -> Hsh -> Hsh),
+    (forall a b c d, hbranch a b = hbranch c d -> a = c /\ b = d) ->
+    (forall k v k' v', length k = length k' -> hleaf k v = hleaf k' v' -> k = k' /\ v = v') ->
+    (forall k v a b, hleaf k v <> hbranch a b) ->
+    (forall k v, hleaf k v <> hempty) ->
+    (forall a b, hbranch a b <> hempty) ->
+    forall n (t a b : @T V) p p', wf n 0 t ->
+      subtree_at t p = Some a -> subtree_at t p' = Some b -> a <> E ->
+      hash hempty hleaf hbranch a = hash hempty hleaf hbranch b -> p = p'.
+Proof. exact @node_hash_distinct. Qed.
+
+(* Honest bitmaps survive the wire: the per-query bitmap read off a well-formed trie (top-first [qbm], sent bottom-first) has
+   a TRUE bottom bit whenever it is not empty, and a bitmap starting with true is unchanged by FromBools (left padding)
+   followed by ToBools + the stripping of leading false bits that Verify performs. *)
+Theorem C10_honest_bitmap_bottom_bit :
+  forall (Hsh : Type) (hempty : Hsh) (hleafb : list N -> list N -> Hsh) (hbranch : Hsh -> Hsh -> Hsh)
+         (t : @T (list N)) (d i : nat) (bits : key),
+    wf d i t -> qbm (qpath hempty hleafb hbranch t bits i) <> [] ->
+    last (qbm (qpath hempty hleafb hbranch t bits i)) false = true.
+Proof. exact @qpath_bottom_bit. Qed.
+Theorem C10_bitmap_wire_roundtrip :
+  forall l : list bool, strip_false (to_bools (from_bools (true :: l))) = true :: l.
+Proof. exact bitmap_wire_roundtrip. Qed.
